@@ -208,4 +208,50 @@ theorem bools_cryptBits (k : Bits) (hk : k.size = 56) (order : List Nat) (Mb : B
   simp only [Spec.Des.cryptBits]
   rw [← hb]
 
+
+/-- the model's result as an Option (every exception = "not defined") -/
+def res {α} (x : Except Err α) : Option α := x.toOption
+
+theorem length_permute (t : List Nat) (x : Spec.Des.Bitstr) : (Spec.Des.permute t x).length = t.length := by
+  simp [Spec.Des.permute]
+
+theorem crypt_refines (K : List Nat) (hK : K.length = 8) (hKb : IsBytes K) (order : List Nat) (M : List Nat)
+    (hM : M.length = 8) (hMb : IsBytes M) :
+    (⟨ofByteStr K⟩ : DES).crypt order M =
+      .ok (Spec.Des.bitsToBytes (Spec.Des.cryptBits
+        (order.map fun r => bools (subkeyP (PC1 (ofByteStr K)) r)) (Spec.Des.bytesToBits M))) := by
+  have hs : (ofByteStr M).size = 64 := by simp [ofByteStr, hM]
+  obtain ⟨Cb, h1, h2, _, h4⟩ := bools_cryptBits (PC1 (ofByteStr K)) (size_PC1 _) order (ofByteStr M) (WF_ofByteStr M hMb) hs
+  rw [crypt_eq _ order M hM, h1]
+  simp only [Except.map]
+  rw [toBytes_eq Cb 8 h2, h4, bools_ofByteStr M hMb]
+
+theorem keySchedule_eq (K : List Nat) (hK : K.length = 8) (hKb : IsBytes K) :
+    (List.range 16).map (fun r => bools (subkeyP (PC1 (ofByteStr K)) r)) = Spec.Des.keySchedule (Spec.Des.bytesToBits K) := by
+  rw [subkeys_eq _ (size_PC1 _), PC1, bools_pick_spec _ (WF_ofByteStr K hKb) _ _ pc1_eq, bools_ofByteStr K hKb]
+  rfl
+
+/-- DES encryption refines FIPS 46-3, size rejection included -/
+theorem enc_refines (K M : List Nat) (hKb : IsBytes K) (hMb : IsBytes M) : res (enc K M) = Spec.Des.enc K M := by
+  by_cases hK : K.length = 8
+  · by_cases hM : M.length = 8
+    · simp only [enc, DES_new_bytes K hK hKb, bind, Except.bind, DES.enc, encOrder,
+        crypt_refines K hK hKb _ M hM hMb, keySchedule_eq K hK hKb, res, Except.toOption, Spec.Des.enc, hK, hM,
+        and_self, if_true, Spec.Des.encryptBits]
+    · simp [enc, DES_new_bytes K hK hKb, bind, Except.bind, DES.enc, crypt_badlen _ _ M hM, res, Except.toOption,
+        Spec.Des.enc, hM]
+  · simp [enc, DES_new_badlen K hK, bind, Except.bind, res, Except.toOption, Spec.Des.enc, hK]
+
+/-- DES decryption refines FIPS 46-3 (K16 first) -/
+theorem dec_refines (K M : List Nat) (hKb : IsBytes K) (hMb : IsBytes M) : res (dec K M) = Spec.Des.dec K M := by
+  by_cases hK : K.length = 8
+  · by_cases hM : M.length = 8
+    · simp only [dec, DES_new_bytes K hK hKb, bind, Except.bind, DES.dec, decOrder,
+        crypt_refines K hK hKb _ M hM hMb, List.map_reverse, keySchedule_eq K hK hKb, res, Except.toOption, Spec.Des.dec, hK, hM,
+        and_self, if_true, Spec.Des.decryptBits]
+    · simp [dec, DES_new_bytes K hK hKb, bind, Except.bind, DES.dec, crypt_badlen _ _ M hM, res, Except.toOption,
+        Spec.Des.dec, hM]
+  · simp [dec, DES_new_badlen K hK, bind, Except.bind, res, Except.toOption, Spec.Des.dec, hK]
+
+
 end Model.Des
